@@ -95,6 +95,10 @@ func TestC05CustomBackendCommands(t *testing.T) { customBackendHistory(t) }
 // weights of the table: the same histories once more (fixed and effective weights are compared).
 func TestC04CustomBackendWeights(t *testing.T) { customBackendHistory(t) }
 
+// C13: a redirect route delivered by the custom backend answers with the code and target of the
+// LAST payload (also when nothing but an option value changed between two payloads).
+func TestC13CustomBackendRedirects(t *testing.T) { customBackendHistory(t) }
+
 // defsText writes definitions in the route-command language.
 func defsText(defs []route.RouteDef) string {
 	var b strings.Builder
@@ -226,7 +230,46 @@ func customBackendHistory(t *testing.T) {
 		for i, n := 0, rapid.IntRange(2, 10).Draw(t, "nsteps"); i < n; i++ {
 			gen++
 			status, body, valid, what := 200, "", true, ""
-			switch rapid.IntRange(0, 6).Draw(t, "step") {
+			stepKind := rapid.IntRange(0, 7).Draw(t, "step")
+			var onlyAdds []route.RouteDef
+			for _, d := range lastGood {
+				if d.Cmd == route.RouteAddCmd {
+					onlyAdds = append(onlyAdds, d)
+				}
+			}
+			if stepKind == 7 && len(onlyAdds) == 0 {
+				stepKind = 6
+			}
+			switch stepKind {
+			case 7:
+				// the same definitions once more; only the VALUE of one option differs from the last
+				// payload (the code of a redirect, the prefix to strip)
+				defs := append([]route.RouteDef{}, lastGood...)
+				for k := range defs {
+					if defs[k].Cmd != route.RouteAddCmd {
+						continue
+					}
+					o := map[string]string{}
+					for kk, vv := range defs[k].Opts {
+						o[kk] = vv
+					}
+					switch {
+					case o["strip"] != "":
+						o["strip"] = fmt.Sprintf("/changed%d", gen)
+					case o["host"] != "":
+						o["host"] = fmt.Sprintf("h%d.example", gen)
+					case o["redirect"] != "":
+						o["redirect"] = map[string]string{"301": "302", "302": "301"}[o["redirect"]]
+					default:
+						o["redirect"] = "302" // (number of options changes: the next round changes the value)
+					}
+					defs[k].Opts = o
+					break
+				}
+				bb, _ := marshalDefs(defs)
+				body, what = string(bb), "the last good definitions with one option value changed"
+				lastGood = defs
+				hx.Class("custom-backend:only-an-option-value-changes")
 			case 0:
 				body, valid, what = "{not json", false, "malformed JSON"
 			case 1:
